@@ -40,7 +40,7 @@ FROM_AST_PY = REPO / "src/py_gql/sdl/schema_from_ast.py"
 
 CFG_KEYS = ["keepAllTypes", "deepClone", "accumulateBusted", "cloneSchemaDres",
             "extObjDres", "extFieldSub", "extFieldPy", "extIfaceRtype", "extUnionDesc", "extUnionRtype",
-            "extArgPy", "extInputPy", "extKeepAll", "extSchemaDres"]
+            "extArgPy", "extInputPy", "extKeepAll", "extSchemaDres", "extInputFieldExtended"]
 
 
 def read_cfg():
@@ -108,6 +108,7 @@ def read_cfg():
         raise ValueError("extend_schema not found")
     esrc = m.group(0)
     cfg["extKeepAll"] = "if t.name in type_exts" not in esrc
+    cfg["extInputFieldExtended"] = bool(re.search(r"_extend_input_field\(\s*self\._build_input_field\(ext_field\)", bsrc))
     cfg["extSchemaDres"] = bool(re.search(r"\.default_resolver\s*=\s*schema\.default_resolver", esrc))
     return cfg
 
